@@ -27,10 +27,11 @@ impl TryFrom<f64> for HFloat {
     type Error = ();
 
     fn try_from(value: f64) -> Result<Self, Self::Error> {
+        // Only values that survive the round trip exactly may become a 16-bit
+        // immediate; anything else must go through the constant table.
         let hv = f16::from_f64(value);
-        let error = (hv.to_f64() - value).abs();
-        if error < ALLOWED_ERROR {
-            Ok(Self(f16::from_f64(value)))
+        if hv.to_f64().to_bits() == value.to_bits() {
+            Ok(Self(hv))
         } else {
             Err(())
         }
